@@ -75,7 +75,7 @@ def plan(tier, seed):
             for amp in (0.0, 0.12):
                 cases.append(dict(key=f"nearly-incompressible/{fk}/{mk}/bulk={bulk}/amp={amp}", kind="ni", mesh=mk, member="renum" if mk != "quad8" else "distorted", fk=fk, bulk=bulk, amp=amp, seed=seed, tier=tier, cost=4))
     for fk, mk in (("3d", "hexahedron"), ("3d", "hexahedron20"), ("ps", "quad"), ("axi", "quad"), ("ps", "quad9")):
-        for item in ("pressure", "cauchy"):
+        for item in ("pressure", "cauchy", "cauchy-nonsym"):  # (-nonsym: a prescribed stress array WITHOUT symmetry, as a ramp of single components produces)
             for mag in (0.7, -1.3, 0.0):
                 for face in ("all", "one"):
                     if item == "cauchy" and fk != "3d":
@@ -546,7 +546,34 @@ def run(case):
             load = fem.SolidBodyPressure(fb, pressure=case["mag"] * ms)
         else:
             S = case["mag"] * np.array([[1.0, 0.2, 0.1], [0.2, -0.5, 0.3], [0.1, 0.3, 0.4]])
+            if case["item"] == "cauchy-nonsym":
+                S = case["mag"] * np.array([[1.0, 0.9, -0.4], [0.2, -0.5, 0.0], [0.1, 0.7, 0.4]])
+            if case["fk"] == "axi":
+                # a twist-free axisymmetric model has no hoop-shear stresses: those components are not part of the model (felupe's
+                # axisymmetric value form would add the third traction component like a hoop term; observation, not judged)
+                S = S.copy()
+                S[2, :2] = 0.0
+                S[:2, 2] = 0.0
             load = fem.SolidBodyCauchyStress(fb, cauchy_stress=S)
+            # independent value of the load vector: r_a = - int h_a sigma . (J F^-T N) dA on the boundary cells
+            got_v = load.assemble.vector(field).toarray()  # (hands the current displacements to the boundary field)
+            Fb = fb.extract()[0]
+            Fbm = np.moveaxis(Fb, (0, 1), (-2, -1))
+            cof = np.moveaxis(np.linalg.det(Fbm)[..., None, None] * np.linalg.inv(Fbm).transpose(0, 1, 3, 2), (-2, -1), (0, 1))
+            nrm = np.asarray(rb.normals)
+            nrm3 = np.zeros((3,) + nrm.shape[1:])
+            nrm3[: nrm.shape[0]] = nrm
+            trac = np.einsum("ij,jkqc,kqc->iqc", S, cof, nrm3)
+            wq = np.asarray(rb.dV) * (2 * np.pi * fb[0].radius if case["fk"] == "axi" else 1.0)
+            hb = np.broadcast_to(rb.h, (rb.h.shape[0],) + wq.shape)
+            rv = np.zeros((mesh.npoints, mesh.dim))
+            np.add.at(rv, rb.mesh.cells, np.einsum("aqc,iqc,qc->cai", hb, trac[: mesh.dim], wq))
+            got_v = got_v[: rv.size, 0].reshape(rv.shape)
+            sgn = -1.0 if np.abs(got_v + rv).max() < np.abs(got_v - rv).max() else 1.0
+            ev = np.abs(got_v - sgn * rv).max() / max(np.abs(rv).max(), 1e-12)
+            c.traces += 1
+            if case["mag"] != 0.0 and ev > 1e-10:
+                c.bad("cauchy-vector", "assembled Cauchy-stress load vector vs int h sigma . (J F^-T N) dA (up to the common sign convention)", float(ev), 0, 1e-10)
         fd_check(c, "K", [body, load], field, 2e-5 * hm)
         fd_check(c, "K-load-only", [load], field, 2e-5 * hm)
         if case["item"] == "pressure" and case["face"] == "one" and case["mag"] == 0.7 and "units" not in case:
@@ -597,7 +624,7 @@ def run(case):
             c.traces += nh
             c.outcomes.add(f"pressure-item-histories={nh}")
             field.fields[0].values[:] = UA
-        if case["item"] == "cauchy" and case["face"] == "one" and case["mag"] == 0.7 and "units" not in case:
+        if case["item"].startswith("cauchy") and case["face"] == "one" and case["mag"] == 0.7 and "units" not in case:
             UA = field.fields[0].values.copy()
             UB = UA + 0.3 * hm * zoo.offarr(seed, 1011, UA.shape)
             item_history(c, "cauchy", lambda: fem.SolidBodyCauchyStress(boundary_field(case["mesh"], mesh, case["fk"], field, mask)[1], cauchy_stress=S), field, {"A": UA, "B": UB, "0": 0 * UA}, depth=2, start="0")
